@@ -23,7 +23,7 @@ from pexpect import screen as screen_mod   # noqa: E402
 
 PROPERTY = 'C19'
 RULE = ('Hypothesis-generated operation sequences (<= 25 steps) over every public screen operation on screens '
-        '1x1..4x5 (latin-1 or utf-8, str or bytes characters), arguments from {-3,0,1,2,interior,size-1,size,'
+        '1x1..4x5 (latin-1 or utf-8, str or bytes characters, LF/CR/ESC/NUL among them), arguments from {-3,0,1,2,interior,size-1,size,'
         'size+1,99}, compared step by step with a reference grid written from the docstrings; accessors compared '
         'after every step.  Non-trivial: >= 3 operations including one with an out-of-range argument or a '
         'non-default scroll region in force.  Distinct by hash of the case.  Thorough: plus all sequences of '
